@@ -47,14 +47,10 @@ CONFIG = dict(
     assumptions=["'sphinx' is not in sys.modules; warnings are not turned into errors (no -W error)",
                  "all other modules of the process carry no pending glue while a case runs (ensured by a warm-up scan)",
                  "a module's _stackscope_install_glue_ is present when the module is inserted (not added later)"],
-    unproved_legs=["C17_timely is proved (all schedules) for modules whose pending glue is module-provided; for a module whose "
-                   "pending glue is a built-in function it is checked by the direct oracle only (ground truth read from the "
-                   "real sys.modules / module dicts / pending table at the start of every extraction)",
-                   "C17_at_most_once is proved for module-provided glue functions (per module object); for built-in "
-                   "functions it is checked by the direct oracle only",
-                   "C17_failure_is_warning: the warning step is proved for every state; 'the remaining names are still "
-                   "processed and the cache is written' is proved for the scanning thread running on its own "
-                   "(C17_failure_scan_completes), not under interleaving with BaseException-raising glue of other threads"],
+    unproved_legs=["liveness of a scan under interleaving ('the scanning thread eventually writes the cache') is proved only for "
+                   "the thread running on its own (C17_failure_scan_completes); the safety consequences (timeliness for "
+                   "module-provided and built-in glue, cache soundness, mutual exclusion, containment of BaseException) are "
+                   "proved for all schedules"],
     NOTES=("Deviation from DESIGN: the two pops of one loop iteration are ONE model step (no checkpoint separates them, so "
            "no schedule between them can be realised against the code); never_both is stated for histories whose "
            "builtin_glue registrations all precede the first extraction (built-in glue is registered when stackscope is "
